@@ -251,6 +251,8 @@ def build_flags(real_threshold):
 
 
 def run(ctx):
+    import C12ext                   # MemoryMapping / mmap_vector / multimap layers (see C12ext.py), run after the map families
+    C12ext.start_prebuild()
     # the (cold) harness build runs while TLC works
     err = []
 
@@ -310,11 +312,15 @@ def run(ctx):
         % (MIN_DENSE_HOOK, MIN_DENSE_HOOK),
         "size()/used_memory()/is_dense() are not compared (not stated by the property); the step at which FlexMem switches is recorded as evidence only",
     ]
+    C12ext.run_part(ctx)            # adds to ctx.traces / evaluations / nontrivial / assumptions; violations "ext:..."
 
 
 def replay(ctx, path):
     with open(path) as fh:
         d = json.load(fh)
+    if d["case"].get("ext"):
+        import C12ext
+        return C12ext.replay_part(ctx, d)
     c = d["case"]["case"]
     run_cases(ctx, [c], real_threshold=bool(d["case"].get("real_threshold")))
     ctx.traces = 1
